@@ -312,6 +312,24 @@ def selftest(ctx, fields_trace, fields_verdict, conc_trace, conc_verdict, kd):
             _corrupt(next(x for x in e["res"]["rows"][-1] if x["n"] == col))
             v = list(run); v[i] = json.dumps(e, separators=(",", ":"))
             variants.append((f"corrupt_{ep}_{col}", v, i + 1))
+    # the column text alone: a cell whose text differs from its canonical rendering (upper-case hex, "007") is given
+    # the canonical text, the typed value stays
+    done = False
+    for run in fruns:
+        for i, l in enumerate(run):
+            if '"raw":' not in l:
+                continue
+            e = json.loads(l)
+            cell = next((x for x in e["res"]["rows"][-1] if "raw" in x and x["n"] not in ("Region", "Name", "Servers")), None) \
+                if e.get("op") == "query" and e["res"]["out"] == "rows" else None
+            if cell:
+                cell["raw"] = cell["v"]
+                v = list(run); v[i] = json.dumps(e, separators=(",", ":"))
+                variants.append(("normalise_column_text", v, i + 1))
+                done = True
+                break
+        if done:
+            break
     run = next((r for r in fruns if len(r) >= 5), None)
     if run:
         v = list(run); del v[2]
@@ -334,7 +352,7 @@ def selftest(ctx, fields_trace, fields_verdict, conc_trace, conc_verdict, kd):
             got = {x - off for x in verdict["violations"] if off < x <= off + len(seg)}
             res[name + "_flagged"] = got == {exp}
             off += len(seg)
-    for name in [f"corrupt_{ep}_{c}" for ep, cs in want.items() for c in cs] + ["drop_one_event", "data_reply_to_malformed"]:
+    for name in [f"corrupt_{ep}_{c}" for ep, cs in want.items() for c in cs] + ["normalise_column_text", "drop_one_event", "data_reply_to_malformed"]:
         res.setdefault(name + "_flagged", "skipped: no conforming run with such an event in this execution")
     ctx.cov["binding_selftest"] = res
     return all(v is not False for v in res.values())
